@@ -340,7 +340,8 @@ def Ctx.getSub (c : Ctx) (t : Topic) (a : Actor) : Ctx :=
   let tn := t.name
   let (c, ok) := c.call "UsersForTopic"
   if !ok then c.emit a.sid (ctrl 500 tn) else
-  let rows := ((c.w.row? tn).map (·.subs)).getD [] |>.filter (!·.deleted)
+  -- (the adapters join the users table: the subscription of an account which has been deleted since is not listed)
+  let rows := ((c.w.row? tn).map (·.subs)).getD [] |>.filter (fun s => !s.deleted && (c.w.user? s.user).isSome)
   if rows.isEmpty then c.emit a.sid (ctrl 204 tn " what=sub") else
   let me := t.pud a.uid
   let presencer := isPresencer (eff me)
